@@ -95,16 +95,16 @@ Print Assumptions C05_consistency.
 (* indexed access agrees with the child iteration for negative indices too *)
 Theorem C05_negative_index : forall (l : list nid) i, (i < length l)%nat ->
   py_index l (Z.of_nat i - Z.of_nat (length l)) = nth_error l i /\ py_index l (Z.of_nat i) = nth_error l i.
-Proof. intros l i H. split; [exact (py_index_neg l i H)|exact (py_index_nonneg l i H)]. Qed.
+Proof. exact py_index_both. Qed.
 Print Assumptions C05_negative_index.
 
 (* non-vacuity: <r>a b<x>c</x>d e<!-- --></r> with two chained text nodes in the text slot and in a tail slot *)
 Definition ex_tree : cel :=
-  CEl 0 (KTag [] [114%N] []) None
+  CEl 0%N (KTag [] [114%N] []) None
       {| ch_head := Some 1%N; ch_slot := Some [97%N]; ch_app := [{| t_id := 2%N; t_s := [98%N] |}] |}
-      [(CEl 3 (KTag [] [120%N] []) None {| ch_head := Some 4%N; ch_slot := Some [99%N]; ch_app := [] |} [],
+      [(CEl 3%N (KTag [] [120%N] []) None {| ch_head := Some 4%N; ch_slot := Some [99%N]; ch_app := [] |} [],
         {| ch_head := Some 5%N; ch_slot := Some [100%N]; ch_app := [{| t_id := 6%N; t_s := [101%N] |}] |});
-       (CEl 7 (KComment []) None no_chain [], no_chain)].
+       (CEl 7%N (KComment []) None no_chain [], no_chain)].
 Example C05_example_wf : el_ok ex_tree = true /\ nodupb (cel_ids ex_tree) = true.
 Proof. vm_compute. split; reflexivity. Qed.
 Example C05_example_descendants :
@@ -113,3 +113,20 @@ Example C05_example_descendants :
   /\ c_fetch_following_sibling ex_tree ftrue (fun i => N.eqb i 7) 1%N = Ok (Some 7%N)
   /\ c_getitem ex_tree ftrue 0%N (-2)%Z = Ok 6%N.
 Proof. vm_compute. repeat split; reflexivity. Qed.
+
+(* NOT covered by theorem; the model (Conc/CNav.v) of each is tied to the code by the correspondence check and the
+   relation is searched directly on the implementation by harness/props/c05.py on every run.  Target statements:
+
+   Lemma c_ancestors_abs : c_iterate_ancestors c D F n = Ok (filter F (a_ancestors (abs_el inh c) n)).
+   Lemma c_depth_abs     : c_depth c D n = Ok (a_depth (abs_el inh c) n).
+   Lemma ancestors_chain : a_ancestors t n = match a_parent t n with Some p => p :: a_ancestors t p | None => [] end.
+   Lemma c_last_descendant_abs : c_last_descendant c ftrue n = Ok (a_last_descendant (abs_el inh c) n).
+   Lemma c_following_abs : inner_ok D t -> c_iterate_following c D F n = Ok (filter (fand D F) (a_following t n)).
+   Lemma c_preceding_abs : inner_ok D t -> c_iterate_preceding c D F n = Ok (filter (fand D F) (a_preceding t n)).
+        (inner_ok D t: D accepts every node that has children.  Without it both walks prune at hidden nodes:
+         `_iterate_following` descends through `first_child`, `_iterate_preceding` runs under the caller's ambient
+         filter because `@altered_default_filters()` on a generator function has no effect while it is iterated.)
+   Lemma c_full_text_abs : c_full_text c D n = Ok (text of the D-visible descendants in document order)
+        (proved at the level of the walks: CWalkFacts.full_text_spec; not yet instantiated for the heap).
+   Lemma c_traverse_bf_abs / c_traverse_df_btt_abs : = bf_ids / post_ids of the subtree (no filter passed).
+   Lemma c_sort_abs : c_sort c ftrue l = Ok (a_doc_sort t l)      (tag nodes only). *)
